@@ -121,9 +121,11 @@ ScopeOK(L) == \A a \in Roots(L), b \in Roots(L) : SameScope(a, b)
 Cases == {[lv |-> L, wf |-> wf, const |-> ConstTarget(L), modifiable |-> ImplModifiable(L), roots |-> Roots(L),
            allmut |-> \A n \in Roots(L) : ~AnyConst(SrcOf(n).ty)] :
             L \in {x \in Basic \cup Mixed : ScopeOK(x)}, wf \in WriteForms}
-         \cup {[lv |-> L, wf |-> "tmplref", const |-> ConstTarget(L), modifiable |-> ImplModifiable(L), roots |-> Roots(L),
+         \* reference arguments of template instantiations: a full instantiation Q = TR(L), and partial instantiations that keep a
+         \* parameter of their own, with L in the last / first argument position: Q(int &y) = TR2(y, L), Q(int &y) = TR2(L, y)
+         \cup {[lv |-> L, wf |-> wf, const |-> ConstTarget(L), modifiable |-> ImplModifiable(L), roots |-> Roots(L),
                 allmut |-> \A n \in Roots(L) : ~AnyConst(SrcOf(n).ty)] :
-            L \in {x \in Basic : SrcOf(CHOOSE n \in Roots(x) : TRUE).where = "global"}}
+            L \in {x \in Basic : SrcOf(CHOOSE n \in Roots(x) : TRUE).where = "global"}, wf \in {"tmplref", "tmplref_partial_last", "tmplref_partial_first"}}
 
 Sound == \A c \in Cases : c.const => ~c.modifiable
 TwinOK == \A c \in Cases : (\A n \in c.roots : ~AnyConst(SrcOf(n).ty)) => c.modifiable
